@@ -14,6 +14,9 @@ structure ReplicaSt where
   lastOuts : List Out := []   -- effects of the last step (the cluster driver routes them)
   pfx : String := "own"     -- prefix of the names under which this replica's own objects are registered
   sendFail : Bool := false  -- the sender has no connection to anybody: `Vote` / `NewView` answer an error
+  async : Bool := false     -- `verify=async`: votes are verified off the event loop (`go vm.verifyCert`)
+  gate : Bool := false      -- the gate in front of vote verification is closed (`verify-hold on`)
+  held : List HeldVote := []   -- verifications started and not finished, oldest first
 
 def keys : Keys := { tmo := tmoKey }
 
@@ -189,6 +192,19 @@ def wireEvent (st : ReplicaSt) (kind name : String) (rest : List String) : Optio
 def ReplicaSt.sync (st : ReplicaSt) : RState :=
   { st.r with truth := st.w.c.truth, nextBytes := st.w.c.nextBytes }
 
+/-- `act`, then the event loop to quiescence, under the replica's verification mode: with the gate
+closed vote events only start verifications (`stepAsync`) -/
+def gatedStep (st : ReplicaSt) (c : RCfg) (act : M Unit) : ReplicaSt × String :=
+  let (res, held') := stepAsync keys c st.sync act (if st.gate then some st.held else none)
+  finish { st with held := if st.gate then held' else st.held } c res
+
+def ReplicaSt.closed (st : ReplicaSt) : Bool := st.async && st.gate
+
+def removeNth {α} : Nat → List α → List α
+  | _, [] => []
+  | 0, _ :: xs => xs
+  | n + 1, x :: xs => x :: removeNth n xs
+
 def replicaStep (st : ReplicaSt) (toks : List String) : ReplicaSt × String :=
   match toks with
   | "cfg" :: _ =>
@@ -198,12 +214,14 @@ def replicaStep (st : ReplicaSt) (toks : List String) : ReplicaSt × String :=
     match st.w.c.replica r, (field "rules" rest).bind rulesOf with
     | some r, some rules =>
       if !st.w.c.ready then (st, "bad-op") else
+      let vmode := field "verify" rest
+      if !(vmode == none || vmode == some "async" || vmode == some "sync") then (st, "bad-op") else
       if rules == .fast && !st.w.c.agg then (st, "panic") else   -- NewFastHotStuff panics without aggregate QCs
       let leaders := match field "leader" rest with
         | some l => if l.startsWith "fixed:" then LeaderKind.fixed ((dropStr 6 l).toNat?.getD 0) else .roundRobin
         | none => .roundRobin
       ({ st with cfg := some { n := st.w.c.cfg.n, id := r, rules := rules, agg := st.w.c.agg, scheme := st.w.c.cfg.scheme, leaders := leaders },
-                 r := {}, sendFail := false }, "ok")
+                 r := {}, sendFail := false, async := vmode == some "async", gate := false, held := [] }, "ok")
     | _, _ => (st, "bad-op")
   | _ =>
   match st.cfg with
@@ -213,7 +231,30 @@ def replicaStep (st : ReplicaSt) (toks : List String) : ReplicaSt × String :=
   | some c =>
   let s := st.w.c
   match toks with
-  | ["start"] => finish st c (start keys c st.sync)
+  | ["start"] => if st.closed then gatedStep st c (startAct keys c) else finish st c (start keys c st.sync)
+  | "verify-hold" :: rest =>
+    if !st.async then (st, "bad-op") else
+    match rest with
+    | ["on"] => ({ st with gate := true }, "ok")
+    | ["off"] =>
+      -- the held verifications finish oldest first; the event loop runs after each (gate open)
+      let (r', outs) := st.held.foldl (fun (acc : RState × List Out) hv =>
+        let ((r1, o1), _) := stepAsync keys c acc.1 (verifyCertM keys c hv.sig hv.hash hv.block) none
+        (r1, acc.2 ++ o1)) (st.sync, [])
+      finish { st with gate := false, held := [] } c (r', outs)
+    | _ => (st, "bad-op")
+  | "verify-release" :: rest =>
+    if !st.async then (st, "bad-op") else
+    match rest with
+    | [ks] =>
+      match ks.toNat? with
+      | some kk =>
+        if kk < 1 then (st, "bad-op") else
+        match st.held[kk - 1]? with
+        | some hv => gatedStep { st with held := removeNth (kk - 1) st.held } c (verifyCertM keys c hv.sig hv.hash hv.block)
+        | none => (st, "bad-op")
+      | none => (st, "bad-op")
+    | _ => (st, "bad-op")
   | ["fetchable", b, onoff] =>
     match s.blocks.lookup b with
     | some blk =>
@@ -226,6 +267,7 @@ def replicaStep (st : ReplicaSt) (toks : List String) : ReplicaSt × String :=
   | ["dump"] => (st, dumpR st.w c st.r)
   | "local-timeout" :: rest =>
     let v := (natField "view" rest).getD st.r.view
+    if st.closed then gatedStep st c (addEvent (.localTimeout v)) else
     finish st c (step keys c st.sync (.localTimeout v))
   | ["wire", "requestblock", spec] =>
     -- the RequestBlock handler: the hash field is copied into a 32-byte array (shorter: zero padded,
@@ -252,6 +294,7 @@ def replicaStep (st : ReplicaSt) (toks : List String) : ReplicaSt × String :=
       let st2 := match reg with
         | some (nm, b) => { st1 with w := { st1.w with c := { st1.w.c with blocks := (nm, b) :: st1.w.c.blocks } } }
         | none => st1
+      if st2.closed then gatedStep st2 c (addEvent e) else
       finish st2 c (step keys c st2.sync e)
   | "deliver" :: kind :: name :: rest =>
     let frm := (natField "from" rest).getD 0
@@ -267,12 +310,16 @@ def replicaStep (st : ReplicaSt) (toks : List String) : ReplicaSt × String :=
           | some a => (s.aggs.lookup a).map some
         match ag with
         | none => (st, "bad-op")
-        | some ag => finish st c (step keys c st.sync (.propose frm b ag))
+        | some ag =>
+          if st.closed then gatedStep st c (addEvent (.propose frm b ag)) else
+          finish st c (step keys c st.sync (.propose frm b ag))
     | "vote" =>
       match rest with
       | blk :: _ =>
         match s.sigOrNil name, s.hashOf blk with
-        | some sg, some h => finish st c (step keys c st.sync (.vote frm sg h false))
+        | some sg, some h =>
+          if st.closed then gatedStep st c (addEvent (.vote frm sg h false)) else
+          finish st c (step keys c st.sync (.vote frm sg h false))
         | _, _ => (st, "bad-op")
       | [] => (st, "bad-op")
     | "timeout" =>
@@ -280,11 +327,15 @@ def replicaStep (st : ReplicaSt) (toks : List String) : ReplicaSt × String :=
       | none => (st, "bad-op")
       | some t =>
         let id := match natField "from" rest with | some f => f | none => t.id
-        finish st c (step keys c st.sync (.timeout ⟨id, t.view, t.viewSig, t.msgSig, { qc := t.qc }⟩))
+        let e := Ev.timeout ⟨id, t.view, t.viewSig, t.msgSig, { qc := t.qc }⟩
+        if st.closed then gatedStep st c (addEvent e) else
+        finish st c (step keys c st.sync e)
     | "newview" =>
       match st.w.sis.lookup name with
       | none => (st, "bad-op")
-      | some si => finish st c (step keys c st.sync (.newview frm si))
+      | some si =>
+        if st.closed then gatedStep st c (addEvent (.newview frm si)) else
+        finish st c (step keys c st.sync (.newview frm si))
     | _ => (st, "bad-op")
   | _ =>
     let (w', out) := wireStep st.w toks
@@ -312,6 +363,12 @@ structure ReplicaOr where
   committedView : Nat := 0
   tmoView : Nat := 0            -- the view for which `tmoFrom` is collected (the replica's view at that time)
   tmoFrom : List Nat := []      -- distinct senders of well-formed timeouts for `tmoView` seen while in that view
+  -- C09 (completeness): per block (hash, view) the distinct replicas whose valid vote for it has been
+  -- verified to the end while the block was above the high QC
+  done : List (Hash × Nat × List Nat) := []
+  -- one entry per held verification, oldest first: the (signer, block) of a valid vote that was
+  -- acceptable on arrival, `none` for everything else
+  heldO : List (Option (Nat × Block)) := []
 
 def splitOn (sep : String) (toks : List String) : List (List String) :=
   toks.foldr (fun t acc => if t == sep then [] :: acc else match acc with
@@ -360,8 +417,10 @@ def replicaOracleStep (o : ReplicaOr) (toks : List String) : ReplicaOr × String
     | "wire" :: _ => true
     | "local-timeout" :: _ => true
     | ["start"] => true
+    | ["verify-hold", "off"] => true
+    | "verify-release" :: _ => true
     | _ => false
-  if lhs.head? == some "replica" then ({ o1 with lastVote := 0, maxTimeout := 0, anyVote := false, view := 1, hqcView := 0, committedView := 0, lastDump := [], tmoView := 0, tmoFrom := [] }, "pass") else
+  if lhs.head? == some "replica" then ({ o1 with lastVote := 0, maxTimeout := 0, anyVote := false, view := 1, hqcView := 0, committedView := 0, lastDump := [], tmoView := 0, tmoFrom := [], done := [], heldO := [] }, "pass") else
   if !isStep then (o1, "pass") else
   if rhs == ["bad-op"] then (o1, "pass") else
   if rhs.contains "panic" then (o1, s!"fail panic on {joinWith " " lhs}") else
@@ -448,7 +507,58 @@ def replicaOracleStep (o : ReplicaOr) (toks : List String) : ReplicaOr × String
   let o4 := { o3 with tmoView := o2.view, tmoFrom := from1 }
   if view == o2.view && cs.cfg.quorum ≤ from1.length && 2 ≤ from1.length then
     (o4, s!"fail timeout-quorum-stuck well-formed timeouts for view {view} from {natList from1} (quorum {cs.cfg.quorum}) arrived while the replica was in that view, but it did not leave it")
-  else (o4, "pass")
+  else
+  -- C09 (completeness, also under asynchronous verification): once the valid votes of a quorum of
+  -- distinct replicas for a block have been verified to the end, each having arrived while the block was
+  -- known and above the high QC, and the block stayed above the high QC, the certificate has formed —
+  -- seen as a high QC of at least that block's view once the event loop is quiescent
+  let T : Truth := fun x => cs.truth.lookup x
+  let validVote (sg : Sig) (b : Block) : Option Nat :=
+    let id := sg.first
+    if sg.len == 1 && sg.participants == [id] && cs.cfg.has id && signersFor T cs.cfg sg (blkMsg b.hash) == [id] &&
+       verify T cs.cfg sg (blkMsg b.hash) then some id else none
+  let closed := o.st.closed
+  -- the vote delivered by this op, if it is valid and was acceptable on arrival
+  let arrived : Option (Nat × Block) := match lhs with
+    | "deliver" :: "vote" :: name :: blk :: _ =>
+      match cs.sigs.lookup name, blockOf st' blk with
+      | some sg, some b =>
+        if (o.st.r.chain.localGet b.hash).isSome && b.view > o2.hqcView then (validVote sg b).map (fun id => (id, b)) else none
+      | _, _ => none
+    | _ => none
+  -- held verifications that end in this step
+  let (ended, heldBase) : List (Nat × Block) × List (Option (Nat × Block)) := match lhs with
+    | ["verify-release", ks] =>
+      match ks.toNat? with
+      | some kk => if kk ≥ 1 && kk ≤ o2.heldO.length then ((o2.heldO[kk - 1]?.getD none).toList, removeNth (kk - 1) o2.heldO) else ([], o2.heldO)
+      | none => ([], o2.heldO)
+    | ["verify-hold", "off"] => (o2.heldO.filterMap id, [])
+    | _ => ([], o2.heldO)
+  let nHeld := st'.held.length
+  let heldNew :=
+    if nHeld == heldBase.length + 1 && (match lhs with | "deliver" :: "vote" :: _ => true | _ => false) then heldBase ++ [arrived]
+    else (heldBase ++ List.replicate (nHeld - heldBase.length) none).take nHeld
+  -- verified at once: gate open (or synchronous mode), or a vote signed by the replica itself
+  let direct : List (Nat × Block) := match arrived with
+    | some (id, b) => if !closed || id == c.id then [(id, b)] else []
+    | none => []
+  -- the replica's own votes for blocks whose votes it collects
+  let own : List (Nat × Block) := effs.filterMap fun e =>
+    match (stripParen "sign(blk:" e).bind (blockOf st') with
+    | some b => if c.leader (b.view + 1) == c.id then some (c.id, b) else none
+    | none => none
+  let done1 := (ended ++ direct ++ own).foldl (fun (acc : List (Hash × Nat × List Nat)) p =>
+    let (id, b) := p
+    match acc.find? (fun x => x.1 == b.hash) with
+    | some x => if x.2.2.contains id then acc else (b.hash, b.view, x.2.2 ++ [id]) :: acc.filter (fun y => y.1 != b.hash)
+    | none => (b.hash, b.view, [id]) :: acc) o2.done
+  -- entries of blocks no longer above the high QC may be dropped by the collector
+  let done2 := done1.filter fun x => x.2.1 > hqView
+  let o5 := { o4 with done := done2, heldO := heldNew }
+  match done2.find? (fun x => decide (cs.cfg.quorum ≤ x.2.2.length)) with
+  | some x =>
+    (o5, s!"fail vote-quorum-no-qc valid votes for {st'.w.hashName x.1} (view {x.2.1}) from {natList x.2.2} (quorum {cs.cfg.quorum}) were verified while the block was above the high QC, but no certificate formed: high QC view {hqView}")
+  | none => (o5, "pass")
 
 -- @family "replica.oracle" replicaOracle
 def replicaOracle : Fam := { σ := ReplicaOr, init := {}, step := replicaOracleStep }
